@@ -317,6 +317,8 @@ def pure_eval(db, f, args):
         if k == "Unary" and n.get("op") == "Not":
             v = ev(n["e"], env)
             return (not v) if isinstance(v, bool) else wrap(~v, n.get("ty"))
+        if k == "Unary" and n.get("op") == "Neg":
+            return wrap(-ev(n["e"], env), n.get("ty"))
         if k == "If" and "else" in n:
             return ev(n["then"], env) if ev(n["cond"], env) else ev(n["else"], env)
         if k == "Binary":
